@@ -60,6 +60,7 @@ func main() {
 
 	cacheDefectProbe(r, sz)
 	deepChainProbe(r, sz)
+	longPrefixProbe(r, sz)
 	// Cases run in worker processes (worker.go). The watchdog is generous; its
 	// firing makes the run inconclusive.
 	runWorkers(r, nTrees, time.Duration(r.Pick(25, 110))*time.Minute)
@@ -95,7 +96,9 @@ func replay(r *evid.Run, sz sizes) {
 	sz.iterProbes = r.Pick(10, 16)
 	sz.prefixProbes = r.Pick(5, 8)
 	fmt.Printf("REPLAY case %d of seed %d tier %s (expected signature %s)\n", doc.Witness.Case, r.Seed, r.Tier, doc.Signature)
-	if doc.Witness.Case < -1 {
+	if doc.Witness.Case <= -20 {
+		longPrefixProbe(r, sz)
+	} else if doc.Witness.Case < -1 {
 		deepChainProbe(r, sz)
 	} else if doc.Witness.Case < 0 {
 		cacheDefectProbe(r, sz)
